@@ -143,6 +143,7 @@ func NewGoRunner() (*GoRunner, error) {
 	if err := os.WriteFile(filepath.Join(dir, "go.sum"), sum, 0o644); err != nil {
 		return nil, err
 	}
+	ImportDir = dir
 	return &GoRunner{Dir: dir}, nil
 }
 
